@@ -281,7 +281,12 @@ def check_input(res, T, cons, schema, data, origin, dname, feats0):
     res.see('constraints-evaluated', len(cons))
     for p in cons:
         res.see('constraint-kind:' + cons[p][0])
-    # fixpoint with the DER codec (outside the zones of pinned encoder findings)
+    # fixpoint with the DER codec (outside the zones of pinned encoder findings); zones are those of the value the
+    # decoder actually returned, not of the value the input was derived from
+    try:
+        feats = feats | set(f for f in U.type_features(T, a) if not f.startswith('type:'))
+    except Exception:
+        pass
     try:
         want, zone = R.like_pyasn1_used(T, a, dname, emulate=C.EMULATE[dname])
         zone = zone - C.HARMLESS_FOR_ROUNDTRIP
